@@ -1262,8 +1262,14 @@ func (fr *Frame) backEdge(from *ssa.BasicBlock, li *loopInfo, st *State) {
 		for _, c := range fr.fc.Steps[li.ordinal] {
 			fx.s.goal(func() {
 				fr.evalAt = from
-				t := fr.evalClause(c, st, li)
+				t, okT := fx.tryClauseIdent(fr, c, st, li)
 				fr.evalAt = nil
+				if !okT {
+					// the clause names a variable of the loop body that is not yet declared on this path (an early
+					// `continue`): it says nothing about this path
+					fx.bounded[fmt.Sprintf("step clause [%s] of loop %d of %s is not evaluated at the back edge from block %d: a variable it names is not in scope there", c.Label, li.ordinal, fr.obName(), from.Index)] = true
+					return
+				}
 				fx.oblige("inv-pres", fmt.Sprintf("%s/step/loop%d/%s", name, li.ordinal, c.Label), c.Text, st, t, b.Instrs[0].Pos(), fr.props())
 				// as a lemma for the later clauses of this back edge the clause is used in its assumed form (the
 				// well-formedness facts of the memory it reads are conjuncts there, not hypotheses)
@@ -2252,6 +2258,22 @@ func (fr *Frame) execTypeAssert(x *ssa.TypeAssert, st *State) {
 	v := fx.s.define(x.Name(), fx.tm.sortOf(x.AssertedType), val)
 	fx.assumeOld(st, x.AssertedType, v)
 	fr.env[x] = Val{t: v}
+}
+
+// tryClauseIdent evaluates a clause; ok=false only when it fails on an identifier that is unknown at this point
+func (fx *FnCtx) tryClauseIdent(fr *Frame, c *Clause, st *State, li *loopInfo) (t Term, ok bool) {
+	savedQuant := fx.s.inQuant
+	defer func() {
+		if r := recover(); r != nil {
+			if u, isUns := r.(*UnsupportedError); isUns && strings.Contains(u.msg, "unknown identifier") {
+				fx.s.inQuant = savedQuant
+				ok = false
+				return
+			}
+			panic(r)
+		}
+	}()
+	return fr.evalClause(c, st, li), true
 }
 
 func (fx *FnCtx) tryClause(fr *Frame, c *Clause, st *State, li *loopInfo) (t Term, ok bool) {
